@@ -1,0 +1,71 @@
+//go:build verif
+
+// Contracts for /verif (build tag "verif"): //@ comment blocks and pure ghost functions only.
+package filecache
+
+import (
+	"io"
+	"os"
+)
+
+var (
+	_ io.Reader
+	_ *os.File
+)
+
+// addStage is the ghost protocol state of one Add: 0 nothing usable, 1 unique temp file created
+// (not visible under the final name), 2 content completely copied, 3 synced to stable storage,
+// 4 closed, 5 renamed onto the final name (the only step that makes an entry visible).
+func addStage() int { return verif_ghost_int("addStage") }
+
+// removed counts os.Remove calls (clean-up of the temp file).
+func removed() int { return verif_ghost_int("removed") }
+
+// ---- assumed meaning of the OS primitives used by Add (POSIX: rename is atomic; CreateTemp
+// returns a fresh unique name that is not the final name) ----
+//@ prop C13
+//@ func os.CreateTemp(dir, pattern string) (*os.File, error)
+//@   trusted
+//@   ensures (r1 == nil) == (r0 != nil)
+//@   ensures r1 == nil ==> addStage() == 1
+//@   ensures r1 != nil ==> addStage() == old(addStage())
+//@   modifies ghost("addStage")
+//@ func io.Copy(dst io.Writer, src io.Reader) (written int64, err error)
+//@   trusted
+//@   ensures err == nil && old(addStage()) == 1 ==> addStage() == 2
+//@   ensures !(err == nil && old(addStage()) == 1) ==> addStage() == 0
+//@   modifies ghost("addStage")
+//@ func (f *os.File) Sync() error
+//@   trusted
+//@   ensures r0 == nil && old(addStage()) == 2 ==> addStage() == 3
+//@   ensures !(r0 == nil && old(addStage()) == 2) ==> addStage() == 0
+//@   modifies ghost("addStage")
+//@ func (f *os.File) Close() error
+//@   trusted
+//@   ensures r0 == nil && old(addStage()) == 3 ==> addStage() == 4
+//@   ensures old(addStage()) >= 4 ==> addStage() == old(addStage())
+//@   ensures !(r0 == nil && old(addStage()) == 3) && old(addStage()) < 4 ==> addStage() == 0
+//@   modifies ghost("addStage")
+//@ func (f *os.File) Name() string
+//@   trusted
+//@   modifies nothing
+//@ func os.Rename(oldpath, newpath string) error
+//@   trusted
+//@   requires addStage() == 4
+//@   ensures r0 == nil ==> addStage() == 5
+//@   ensures r0 != nil ==> addStage() == 4
+//@   modifies ghost("addStage")
+//@ func os.Remove(name string) error
+//@   trusted
+//@   ensures removed() == old(removed()) + 1
+//@   modifies ghost("removed")
+
+// Add: an entry becomes visible (stage 5) only by renaming a temp file whose content was completely
+// written, synced and closed (the precondition of Rename, checked at its call site: at every
+// earlier point - i.e. at every crash point - nothing exists under the final name that this call
+// put there); on any error the temp file is removed and the final name was not touched.
+//@ func (fc *fileCache) Add(key Key, content io.Reader) (err error)
+//@   requires addStage() == 0
+//@   ensures[visible-iff-success] (err == nil) == (addStage() == 5)
+//@   ensures[temp-removed-on-error] err != nil && old(addStage()) == 0 ==> removed() == old(removed()) + 1 || addStage() == old(addStage())
+//@   modifies ghost("addStage"), ghost("removed")
